@@ -24,6 +24,17 @@ ASSUMPTIONS = [
 
 
 def observe(sess, hist, op, exc, valid, reason, pre, acc):
+    from .. import env as _env
+
+    try:
+        with _env.time_limit(5):
+            return _observe(sess, hist, op, exc, valid, reason, pre, acc)
+    except _env.LibraryCallTimeout as e:
+        raise core.Violation("read-does-not-return", kcommon.sig(PROP, "read-does-not-return", op, sess.cfg), None,
+                             f"after {len(hist)} calls: {e} (blocks in this exploration are small)")
+
+
+def _observe(sess, hist, op, exc, valid, reason, pre, acc):
     cfg = sess.cfg
     model = sess.model
     data = sess.disk()
@@ -39,7 +50,7 @@ def observe(sess, hist, op, exc, valid, reason, pre, acc):
         missing = sorted(set(model.live) - set(types))
         clause = "removed-kind-present" if extra else ("block-lost" if missing else "duplicate-kind")
         raise core.Violation(clause, kcommon.sig(PROP, clause, op, cfg), None,
-                             f"{where}: file has {[R.NAMES.get(t, t) for t in types]}, history says {[R.NAMES.get(t, t) for t in model.live]}")
+                             f"{where}: file has {[str(R.NAMES.get(t, t)) for t in types]}, history says {[R.NAMES.get(t, t) for t in model.live]}")
     for i, e in enumerate(p["entries"]):
         if e["type"] == 0:
             continue
@@ -84,7 +95,7 @@ _chain = kcommon.make_chain_run(__name__, "observe", faults=True)
 def run(tier):
     acc = kcommon.run_configs(__name__, tier)
     # straight-line histories in ONE context with reads in between (read-side hidden state)
-    acc.merge(core.pmap(__name__, "_chain", [c.to_witness() for c in kcommon.chain_configs(tier)]))
+    acc.merge(core.pmap(__name__, "_chain", [c.to_witness() for c in kcommon.chain_configs(tier, deep=True)]))
     return acc
 
 
